@@ -40,7 +40,7 @@ fn gen_vector(r: &mut Xo, case: u64) -> Vec<Trans> {
     }
     let unit = 1.0f32 / N as f32; // 2^-23
     loop {
-        let probs: Vec<f32> = match r.below(7) {
+        let probs: Vec<f32> = match r.below(8) {
             // dyadic at the draw's resolution: multiples of 2^-23
             0 | 1 => {
                 let total = *r.pick(&[N, N, N / 2, N - 1, 1, 2, k as u64, N / 4 + 1]).max(&(k as u64));
@@ -56,6 +56,25 @@ fn gen_vector(r: &mut Xo, case: u64) -> Vec<Trans> {
             }
             // equal shares
             2 => (0..k).map(|_| 1.0 / k as f32).collect(),
+            // a sum one to k+1 units in the last place above one: refused by validation as it stands and never
+            // returned from here; a validation that tolerates them hands out vectors whose last targets cannot
+            // get their declared share, and then these are the vectors that show it
+            7 => {
+                let mut v: Vec<f32> = (0..k).map(|_| 1.0 / k as f32).collect();
+                if k >= 2 && r.chance(1, 2) {
+                    v[0] = 0.5;
+                    let rest = 0.5 / (k - 1) as f32;
+                    for p in v.iter_mut().skip(1) {
+                        *p = rest;
+                    }
+                }
+                let s: f32 = v.iter().sum();
+                let j = r.range(1, k as u64 + 1) as u32;
+                let last = k - 1;
+                let want = f32::from_bits(1.0f32.to_bits() + j);
+                v[last] += want - s;
+                v
+            }
             // coarse dyadic
             3 => {
                 let den = *r.pick(&[2u32, 4, 8, 16, 1024]);
